@@ -34,6 +34,13 @@ def replay_wulff(data):
     cube = np.vstack([np.eye(3), -np.eye(3)])
     cases.append((cube, np.ones(6)))
     cases.append((np.vstack([cube, np.array([[1, 1, 0], [-1, -1, 0], [1, -1, 0], [-1, 1, 0]]) / np.sqrt(2)]), np.r_[np.ones(6), 1.2 * np.ones(4)]))
+    # shapes with vertices where four or more facets meet (the pruned-to-original index map matters there)
+    octa = np.array(list(itertools.product((1, -1), repeat=3)), float) / np.sqrt(3)
+    cases.append((octa, np.ones(8)))
+    rd = np.array([v for v in itertools.product((1, 0, -1), repeat=3) if sum(abs(x) for x in v) == 2], float) / np.sqrt(2)
+    cases.append((rd, np.ones(12)))
+    cases.append((np.vstack([cube, octa]), np.r_[np.ones(6), (2 / np.sqrt(3)) * np.ones(8)]))
+    cases.append((np.vstack([octa, np.array([[0, 0, 1.0], [0, 0, -1.0]])]), np.r_[np.ones(8), 1.1, 1.1]))
     for normals, e in cases:
         try:
             w = WulffConstruction(normals, e)
